@@ -47,6 +47,7 @@ def strategy(tier):
         "next_body": st.sampled_from(["", "tail", "0\r\n\r\n"]),
         "version": st.sampled_from(["1.1", "1.1", "1.0"]),
         "method": st.sampled_from(["POST", "POST", "PUT", "GET", "HEAD", "DELETE", "OPTIONS", "PATCH"]),
+        "source": st.sampled_from(["iter", "sock"]),
     })
 
 
@@ -94,7 +95,12 @@ def build(case):
 def run_case(case):
     stream, cuts, body, nb = build(case)
     cfg = penv.make_cfg()
-    src = penv.Source(penv.segment(stream, cuts))
+    if case.get("source") == "sock":
+        # the socket reader path (SocketUnreader: recv() of at most 8192 bytes) instead of the iterator path
+        from vlib.wenv import FakeSocket
+        src = FakeSocket(penv.segment(stream, cuts), step_budget=10 ** 6)
+    else:
+        src = penv.Source(penv.segment(stream, cuts))
     parser = RequestParser(cfg, src, ("127.0.0.1", 1234))
     vio = []
     kinds = set()
@@ -183,7 +189,7 @@ def run_case(case):
                                  observed={"error": repr(e), "trace": trace, "consumed": model.tell(), "body_len": len(body)},
                                  expected="PUT /next parsed from the first byte after the body"))
     nontrivial = len(kinds) >= 2 or (stopped_early and not case["drain"])
-    classes = ["framing:" + case["framing"], "drain:%s" % case["drain"], "early-stop:%s" % stopped_early,
+    classes = ["source:" + case.get("source", "iter"), "framing:" + case["framing"], "drain:%s" % case["drain"], "early-stop:%s" % stopped_early,
                "kinds:%d" % len(kinds), "len>1024:%s" % (len(body) > 1024), "len>8192:%s" % (len(body) > 8192)]
     return Outcome(vio, nontrivial, classes,
                    sample={"body_len": len(body), "pat": case["pat"], "framing": case["framing"], "program": case["program"],
